@@ -14,7 +14,7 @@ RULE = ("INIT: the space {README.md, README.rst, setup.py} present/absent x {set
 ASSUMPTIONS = ["'unrelated content' = other tools' sections that do not mention bumpver", "clock for init = bumpver.utils.now seam"]
 COMPONENTS = {"bumpver cli init/show, config.init/default_config/write_content": "real", "files": "real scratch directory",
               "clock": "simulated (utils.now)"}
-CAMPAIGNS = [Init("C19", quick=9000)]
+CAMPAIGNS = [Init("C19", quick=20000)]
 
 
 def sanity_gate(tier, total):
